@@ -16,6 +16,7 @@ import (
 // candidate kinds
 const (
 	tUserSend     = "user-send"
+	tUserCall     = "user-call" // a user send to an embedded contract carrying ABI-encoded call data
 	tUserReceive  = "user-receive"
 	tUserFirst    = "user-receive-first-block"
 	tContractRecv = "contract-receive"
@@ -257,6 +258,12 @@ func (cd *cand) domain() []mutation {
 			t.Data = append([]byte{}, t.Data...)
 			t.Data[len(t.Data)-1] ^= 3
 		})
+	}
+	if types.IsEmbeddedAddress(v.ToAddress) && len(v.Data) >= 4 {
+		// call data that decodes to the same arguments but is not the canonical encoding (the ABI decoder tolerates
+		// trailing bytes): honestly hashed and signed in the resigned modes
+		add("Data", "canonical+32-zero-bytes", func(t *nom.AccountBlock) { t.Data = append(append([]byte{}, t.Data...), make([]byte, 32)...) })
+		add("Data", "canonical+1-byte", func(t *nom.AccountBlock) { t.Data = append(append([]byte{}, t.Data...), 7) })
 	}
 	add("Data", "3-bytes", func(t *nom.AccountBlock) { t.Data = []byte{1, 2, 3} })
 	add("Data", "16KiB+1", func(t *nom.AccountBlock) { t.Data = make([]byte, constants.MaxDataLength+1) })
